@@ -386,8 +386,30 @@ def _run_queue_case(ctx, data, cuts, rseed):
                           'queue-poll-none', case, {'model': exp, 'got': repr(m)})
                 if m is not None:
                     got.append(m)
-            elif r < 0.5:
+            elif r < 0.4:
                 got.extend(q.iterpoll())
+            elif r < 0.5:
+                # the loop over iterpoll() is busy with the queue itself: it polls in between, and bytes that
+                # complete further messages arrive while it runs - it still ends cleanly with the queue empty
+                more = list(data[pos:pos + 6])
+                fed = False
+                for m in q.iterpoll():
+                    got.append(m)
+                    other = q.poll()
+                    if other is not None:
+                        got.append(other)
+                    if not fed and more:
+                        q.put_bytes(more)
+                        fed = True
+                if fed:
+                    pos += len(more)
+                    cuts = tuple(c for c in cuts if c > pos)
+                    # the rest of this history continues behind what was fed inside the loop
+                    rest = list(data[pos:])
+                    got.extend(q.iterpoll())
+                    q.put_bytes(rest)
+                    pos = len(data)
+                    break
             elif r < 0.6 and produced[pos] - len(got) > 0:
                 if q._queue.empty():
                     # get() would block for ever: the queue lost a message the reference run produced
